@@ -290,15 +290,16 @@ def decValue {α : Type} (dc : DataCoder α) (st : DecSt α) (p : Param) : R (PV
     if p.nbits = 0 then
       if ty = .bool then R.map (fun v => (v, none)) (readTyped ty 0)
       else R.bind (R.lift (secLen st.acc)) fun d =>
-        if d * 8 < st.used then R.fail .other                      -- negative width: ValueError
+        if d * 8 < st.used then R.fail .lib     -- declared length below what was read: PyBufrKitError (fix F14; a ValueError before)
         else R.map (fun v => (v, none)) (readTyped ty (d * 8 - st.used))
     else R.map (fun v => (v, none)) (readTyped ty p.nbits)
 
-/-- `assert parameter.value == parameter.expected` (an AssertionError, not a library error) -/
+/-- `if parameter.value != parameter.expected: raise PyBufrKitError(...)` (the library error since the
+    fix of finding F9; it was an `assert`, i.e. an AssertionError, before) -/
 def checkExpected (p : Param) (v : PVal) : Except Err Unit :=
   match p.expected with
   | none => .ok ()
-  | some e => if v = .bytes e then .ok () else .error .other
+  | some e => if v = .bytes e then .ok () else .error .lib
 
 def decParams {α : Type} (dc : DataCoder α) (start : Nat) : List Param → Nat → DecSt α → R (DecSt α)
   | [], _, st => R.pure st
@@ -383,6 +384,16 @@ def decode {α : Type} (L : Layouts) (dc : DataCoder α) (o : DecOpts) (bytes : 
     | .ok (out, _) =>
       .ok { sections := out.sections, data := out.data, nbits := out.nbits,
             serialized := s.take (out.nbits / 8) }
+
+/-- `Decoder.process(s, start_signature=None)`: no search, the message starts at the first byte
+    (what `generate_bufr_message` calls at every signature it finds) -/
+def decodeAt {α : Type} (L : Layouts) (dc : DataCoder α) (o : DecOpts) (s : List UInt8) :
+    Except Err (DecMsg α) :=
+  match decodeBits L dc o (bytesToBits s) with
+  | .error e => .error e
+  | .ok (out, _) =>
+    .ok { sections := out.sections, data := out.data, nbits := out.nbits,
+          serialized := s.take (out.nbits / 8) }
 
 /-- the trivial data coder of the driver: the data are the next `n` bits, uninterpreted -/
 def rawCoder (n : Nat) : DataCoder Bits := { dec := fun _ => readBits n }
